@@ -130,12 +130,10 @@ def check_s32(ctx, P2):
             Lc = c.get("v")
     want = list(curve.L.to_bytes(32, "little"))
     ctx.check(Lc == want, "table", "scalar32::L", "L stored little-endian, matching the index order of the comparison", "scalar32 from_bytes_canonical's constant is not the group order in the byte order the comparison walks (S = L / S + L would be accepted)", where=fn.where(), key="table:scalar32::L")
-    chk = P2.fn_opt("curve25519::scalar::scalar32::Scalar::from_bytes_canonical::check_s_lt_l")
-    if chk is None:
-        ctx.lost("canonical", "scalar32::check_s_lt_l", "helper not found")
-        return
-    # the loop index starts at 31 and the loop exits only when i == 0 AFTER processing index 0
-    r = ssa.Eval(P2, chk).run()
+    # the comparison may live in a private helper or be written out in from_bytes_canonical: the term evaluator inlines the
+    # private helpers of the module, so the rule sees the same terms either way
+    r, cond, where_ = s32_reject_cond(P2)
+    chk = P2.fn_opt("curve25519::scalar::scalar32::Scalar::from_bytes_canonical::check_s_lt_l") or fn
     # unrolled? the loop is `loop { body(i); if i == 0 {break} else {i -= 1} }` with i = 31: constant-trip -> ssa unrolls it
     idxs = []
     for bb, kind, cnd, exp, ops in r.asserts:
@@ -143,15 +141,32 @@ def check_s32(ctx, P2):
             idxs.append(ops[1][1])
     seen = sorted(set(idxs))
     ctx.check(seen == list(range(32)), "canonical", "scalar32::check_s_lt_l:coverage", "the comparison visits byte indices 31 down to 0 (all 32 bytes)", "scalar32's S < L comparison does not visit all 32 bytes (indices seen: %s): the least significant byte(s) are never compared" % (seen[:3] + ["..."] + seen[-2:] if len(seen) > 5 else seen), where=chk.where(), key="canonical:scalar32::check_s_lt_l:coverage")
-    # acceptance polarity: Some(..) iff !(c == 0)
-    some = [b for b in sorted(fn.reachable()) for s in fn.stmts(b) if s[0] == "=" and s[2][0] == "agg" and s[2][1][0] == "adt" and "Option" in s[2][1][1] and s[2][1][3] == "Some"]
-    ok = len(some) == 1
-    if ok:
-        facts = fn.edge_facts(some[0])
-        ok = any(e[0] == "call" and e[1].endswith("check_s_lt_l") and v is False for e, v, o in facts)
-        ret = chk.local_expr(0)
-        ok = ok and ret[0] == "bin" and ret[1] == "Eq" and (ret[3][:2] == ("const", 0) or ret[2][:2] == ("const", 0))
-    ctx.check(ok, "canonical", "scalar32::from_bytes_canonical:polarity", "Some exactly when the borrow accumulator is non-zero (S < L)", "scalar32 from_bytes_canonical accepts under the wrong polarity", where=fn.where(), key="canonical:scalar32::from_bytes_canonical:polarity")
+    # acceptance polarity: None exactly under the reject condition, Some(Scalar::from_bytes(bytes)) otherwise; WHICH inputs
+    # make the condition true is the order rule below
+    ctx.check(cond is not None, "canonical", "scalar32::from_bytes_canonical:polarity", "result = if <reject condition> { None } else { Some(Scalar::from_bytes(bytes)) }", "scalar32 from_bytes_canonical is not `None` under one condition and `Some(from_bytes(bytes))` otherwise (%s)" % where_, where=fn.where(), key="canonical:scalar32::from_bytes_canonical:polarity")
+
+
+def s32_reject_cond(P2):
+    """(evaluation, reject-condition term or None, diagnosis) of scalar32 from_bytes_canonical"""
+    fn = P2.fn("curve25519::scalar::scalar32::Scalar::from_bytes_canonical")
+    r = ssa.Eval(P2, fn, inline=ssa.auto_inline(P2, fn), maxdepth=3).run()
+    from .. import intern
+    intern.Interner().canon_result(r)
+    ret = r.ret
+    if not isinstance(ret, ssa.Agg) or "Option" not in str(ret.get("_adt")):
+        return r, None, "the result is not an Option built on both paths"
+    pl = ret.get(0) if 0 in ret else ret.get("0")
+    if not (isinstance(pl, tuple) and pl and pl[0] == "ite"):
+        return r, None, "the payload does not depend on a comparison"
+    c_, a_, b_ = pl[1], pl[2], pl[3]
+
+    def is_some(t):
+        return isinstance(t, tuple) and t and t[0] == "call" and t[1].endswith("scalar32::Scalar::from_bytes")
+    if a_ == ("undef",) and is_some(b_):
+        return r, c_, ""
+    if b_ == ("undef",) and is_some(a_):
+        return r, ("un", "Not", c_, "bool"), ""
+    return r, None, "branches %s / %s" % (str(a_)[:40], str(b_)[:40])
 
 
 def check_s32_order(ctx, P2):
@@ -159,13 +174,12 @@ def check_s32_order(ctx, P2):
     k of the most significant byte where S differs from L and the order there (bytes above k equal L's, bytes below k
     arbitrary), plus S == L.  In every case the accumulator folds to a constant."""
     from .. import bounds, intern
-    chk = P2.fn_opt("curve25519::scalar::scalar32::Scalar::from_bytes_canonical::check_s_lt_l")
-    if chk is None:
-        ctx.lost("canonical", "scalar32::check_s_lt_l", "helper not found")
+    fn0 = P2.fn("curve25519::scalar::scalar32::Scalar::from_bytes_canonical")
+    chk = P2.fn_opt("curve25519::scalar::scalar32::Scalar::from_bytes_canonical::check_s_lt_l") or fn0
+    r, ret, why_ = s32_reject_cond(P2)
+    if ret is None:
+        ctx.fail("canonical", "scalar32::check_s_lt_l:order", "cannot see the reject condition of scalar32 from_bytes_canonical (%s)" % why_, where=fn0.where(), key="canonical:scalar32::check_s_lt_l:order")
         return
-    r = ssa.Eval(P2, chk).run()
-    intern.Interner().canon_result(r)
-    ret = r.ret
     Lb = list(curve.L.to_bytes(32, "little"))
 
     def run_case(k, order):
@@ -194,7 +208,7 @@ def check_s32_order(ctx, P2):
                 continue
             n += 1
             v, unk = run_case(k, order)
-            want = 0 if order == "<" else 1          # the helper returns `c == 0`, i.e. NOT (S < L)
+            want = 0 if order == "<" else 1          # the reject condition (`c == 0`), i.e. NOT (S < L)
             if v != (want, want) or unk:
                 bad.append((k, order, v))
     ctx.check(not bad and n >= 40, "canonical", "scalar32::check_s_lt_l:order", "returns false exactly when S < L: %d cases (first differing byte x order, and S == L) each fold to a constant" % n,
